@@ -48,12 +48,7 @@ def norm(snap):
     return [(a, b, strip(i), strip(o)) for a, b, i, o in nodes], lines, io
 
 
-def name_structure(c):
-    """structure of a circuit up to renumbering: nodes by (name, is fork) with kind and pin counts, connections by names and pins, port order by name"""
-    key = lambda n: (n.name, n.kind == '__fork__')
-    nodes = {key(n): n.kind for n in c.nodes}
-    conns = sorted((key(l.driver), l.driver_pin, key(l.reader), l.reader_pin) for l in c.lines)
-    return nodes, conns, [key(n) for n in c.io_nodes], len(c.nodes), len(c.lines)
+name_structure = RC.name_structure
 
 
 def contracted_connections(c):
